@@ -9,19 +9,20 @@ import (
 
 // Options switches labelled classes of worlds on and off.
 type Options struct {
-	MaxServices   int
-	Interfaces    bool
-	Unions        bool
-	ValueTypes    bool
-	Args          bool
-	Inputs        bool
-	Mutations     bool
-	Subscriptions bool
-	NestedLists   bool // [[T]] on composite fields (labelled class)
-	HostileIDs    bool
-	ServiceNoNode bool // a root-only service may omit node
-	EmptyAbstract bool // abstract types without members (C07 only)
-	MinServices   int
+	MaxServices    int
+	Interfaces     bool
+	Unions         bool
+	ValueTypes     bool
+	Args           bool
+	Inputs         bool
+	Mutations      bool
+	Subscriptions  bool
+	NestedLists    bool // [[T]] on composite fields (labelled class)
+	HostileIDs     bool
+	ServiceNoNode  bool // a root-only service may omit node
+	EmptyAbstract  bool // abstract types without members (C07 only)
+	ForceMutations bool
+	MinServices    int
 }
 
 func DefaultOptions() Options {
@@ -434,7 +435,7 @@ func Generate(t *rapid.T, opt Options) *Model {
 		f.Name = g.rootName("get", f, used)
 		m.Roots["Query"] = append(m.Roots["Query"], f)
 	}
-	if opt.Mutations && g.chance(50, "hasmut") {
+	if opt.Mutations && (g.chance(50, "hasmut") || opt.ForceMutations) {
 		nM := 1 + g.pick(3, "nmut")
 		usedM := map[string]bool{}
 		for i := 0; i < nM; i++ {
